@@ -222,7 +222,7 @@ def run(ctx):
     jobs = [(i, h, (3, 3), ctx.scratch, i % 2 == 0) for i, h in enumerate(hist)]
     # larger tables: the same rectangles at table edges of 5x6 / 12x9 tables, and N x 1 / 1 x N tables
     extra = []
-    for i in range(60 if q else 1200):
+    for i in range(120 if q else 1200):
         nr, nc = rng.choice([(5, 6), (12, 9), (1, 6), (7, 1), (6, 6)])
         ops, used = [], []
         for _ in range(rng.randint(1, 3)):
@@ -247,11 +247,18 @@ def run(ctx):
                 if not any(y[0] <= r <= y[2] and y[1] <= c <= y[3] and (r, c) != (y[0], y[1]) for y in used):
                     ops.append({"op": "write", "r": r, "c": c, "v": "c"})
             elif k < 0.5:
-                # only edits that do not cut a rectangle (before the first / after the last one)
-                top = min(y[0] for y in used)
+                # only edits that do not cut a rectangle (before the first / after the last one), one or two lines at a time, on either axis;
+                # "at the first row / left edge of a rectangle" is such a position: the rectangle moves as a whole
                 if cnr == nr and cnc == nc:
-                    ops.append({"op": "addrow", "n": 1, "d": rng.choice(["e", "c"]), "at": rng.choice([a for a in range(1, nr + 2) if a <= top or a > max(y[2] for y in used)])})
-                    cnr += 1
+                    n = rng.choice([1, 1, 2])
+                    if rng.random() < 0.5:
+                        top = min(y[0] for y in used)
+                        ops.append({"op": "addrow", "n": n, "d": rng.choice(["e", "c"]), "at": rng.choice([a for a in range(1, nr + 2) if a <= top or a > max(y[2] for y in used)])})
+                        cnr += n
+                    else:
+                        left = min(y[1] for y in used)
+                        ops.append({"op": "addcol", "n": n, "d": rng.choice(["e", "c"]), "at": rng.choice([left] * 3 + [a for a in range(1, nc + 2) if a <= left or a > max(y[3] for y in used)])})
+                        cnc += n
                     break
             elif k < 0.7:
                 ops.append({"op": "save"})
